@@ -141,6 +141,9 @@ pub enum E {
     SampleRate,
     /// `match scrutinee { k0 => e0  k1 => e1  _ => d }` on a number with integer-literal arms
     MatchNum(Box<E>, Vec<(i64, E)>, Box<E>),
+    /// parameter pack: `(e1, e2) |> f` (names None) or `{b = e2, a = e1[, ..]} |> f` — the fields in
+    /// written order, `dots` = missing parameters take their defaults
+    Pack(u32, String, Vec<(Option<String>, E)>, bool),
     /// array literal of numbers (only as the right-hand side of a `let`)
     ArrLit(Vec<E>),
     /// `a[i]`: the index is truncated towards zero and clamped to the array (non-finite -> 0)
@@ -159,6 +162,8 @@ pub enum S {
 pub struct FnDef {
     pub name: String,
     pub params: Vec<Param>,
+    /// default value (literal text) per parameter; empty = none has one
+    pub defaults: Vec<Option<String>>,
     pub ret: Ty,
     pub annotate_ret: bool,
     pub body: E,
@@ -205,6 +210,7 @@ pub struct Features {
     pub arrays: u32,
     pub sibling_closures: u32,
     pub shared_cells: u32,
+    pub packs: u32,
     pub pipes: u32,
     pub nodes: u32,
     pub fns: u32,
@@ -246,6 +252,7 @@ impl Features {
         f!(self.arrays > 0, "f:array");
         f!(self.sibling_closures > 0, "f:sibling-closures");
         f!(self.shared_cells > 0, "f:shared-cell");
+        f!(self.packs > 0, "f:param-pack");
         f!(self.pipes > 0, "f:pipe");
         c
     }
@@ -317,6 +324,12 @@ pub struct PCfg {
     pub sibling_closures: bool,
     /// a numeric local assigned and read by two closures of its frame and by the frame itself
     pub shared_cell: bool,
+    /// tuples / records piped into a function as its parameters
+    pub param_packs: bool,
+    /// functions with default values, used through `{.., ..}` packs
+    pub default_args: bool,
+    /// incomplete records are written with an explicit `..`
+    pub pack_dots: bool,
     /// record update `{r <- f = e}` inside the initialiser of a global
     pub record_update_in_globals: bool,
     /// the frame may assign a local after a lambda that can see it was passed to a function
@@ -367,6 +380,9 @@ impl Default for PCfg {
             rec_pattern_thirds: 1,
             sibling_closures: true,
             shared_cell: true,
+            param_packs: true,
+            default_args: true,
+            pack_dots: true,
             record_update_in_globals: true,
             assign_after_closure_escapes: true,
             array_index_inf: true,
@@ -384,6 +400,9 @@ struct FnSig {
     depth: u32,
     /// returns a closure that owns state / assigns its captured variable (maker)
     maker: bool,
+    /// parameter names and which of them have a default (for parameter packs)
+    pnames: Vec<String>,
+    defaults: Vec<bool>,
 }
 
 #[derive(Clone, Debug)]
@@ -592,6 +611,7 @@ impl<'a> PG<'a> {
         let rec_vars: Vec<VarInfo> = sc.vars.iter().filter(|v| self.visible(sc, v)).chain(self.globals.iter()).filter(|v| matches!(&v.ty, Ty::Rec(_))).cloned().collect();
         let clo_vars: Vec<VarInfo> = sc.vars.iter().filter(|v| self.visible(sc, v)).chain(self.globals.iter()).filter(|v| matches!(&v.ty, Ty::Fun(_, r) if **r == Ty::Num)).cloned().collect();
         let tuple_callees: Vec<FnSig> = self.fns.iter().filter(|f| matches!(f.ret, Ty::Tup(_)) && f.ret.is_flat_num() && !f.maker && (sc.allow_state || !f.stateful) && (self.cfg.state_in_branches || !sc.in_branch || !f.stateful) && !(sc.in_lambda && f.params.iter().any(|p| matches!(p, Ty::Fun(..))))).cloned().collect();
+        let pack_callees: Vec<FnSig> = callees.iter().filter(|f| f.ret == Ty::Num && f.params.len() >= 2 && f.params.iter().all(|t| *t == Ty::Num) && f.pnames.len() == f.params.len()).cloned().collect();
         let state_ok = self.cfg.state && sc.allow_state && (self.cfg.state_in_branches || !sc.in_branch);
         let delay_ok = state_ok && self.cfg.delays && (self.cfg.multi_delay_per_fn || !sc.fn_has_delay);
         let tuple_self = matches!(&sc.self_ty, Some(Ty::Tup(_)));
@@ -619,6 +639,7 @@ impl<'a> PG<'a> {
             if self.cfg.arrays && self.fuel > 0 && (self.cfg.block_operands || !sc.in_operand) { 2 } else { 0 }, // 20 indexed local array
             if self.cfg.sibling_closures && self.cfg.closures && sc.allow_closure && !sc.in_lambda && !clo_vars.is_empty() && (self.cfg.block_operands || !sc.in_operand) { 2 } else { 0 }, // 21 sibling closures sharing a captured closure
             if self.cfg.shared_cell && self.cfg.closures && self.cfg.assigns && sc.allow_closure && !sc.in_lambda && (self.cfg.block_operands || !sc.in_operand) { 2 } else { 0 }, // 22 a numeric local shared by sibling closures and the frame
+            if self.cfg.param_packs && !pack_callees.is_empty() { 3 } else { 0 }, // 23 parameter pack piped into a function
         ];
         match self.g.weighted(&w) {
             0 => self.leaf_num(sc),
@@ -731,6 +752,37 @@ impl<'a> PG<'a> {
                 let body = self.num(&mut inner);
                 let id = self.id();
                 E::Pipe(id, Box::new(x), Box::new(E::Lam(vec![Param { name: pname, ty: Ty::Num, annotate: false }], Box::new(body))))
+            }
+            23 => {
+                // (e1, e2) |> f      or      {p2 = e2, p1 = e1[, ..]} |> f
+                self.feat.pipes += 1;
+                self.feat.packs += 1;
+                let f = self.g.pick(&pack_callees).clone();
+                // register the call site like an ordinary call
+                let probe = self.call_fn(&FnSig { params: vec![], ..f.clone() }, sc);
+                let id = match probe {
+                    E::Call(id, ..) | E::Pipe(id, ..) => id,
+                    _ => self.id(),
+                };
+                let n = f.params.len();
+                if self.g.coin() {
+                    let fields: Vec<(Option<String>, E)> = (0..n).map(|_| (None, self.small_num(sc))).collect();
+                    E::Pack(id, f.name.clone(), fields, false)
+                } else {
+                    let order = self.g.perm(n);
+                    let mut fields = vec![];
+                    let mut dots = false;
+                    for i in order {
+                        if f.defaults.get(i).copied().unwrap_or(false) && self.g.coin() {
+                            dots = true;
+                            continue;
+                        }
+                        fields.push((Some(f.pnames[i].clone()), self.small_num(sc)));
+                    }
+                    // `{a = 1, ..}`: the explicit `..` is a recorded finding (defaults are not filled in);
+                    // without it the missing fields are simply left out, which works
+                    E::Pack(id, f.name.clone(), fields, dots && self.cfg.pack_dots)
+                }
             }
             22 => {
                 // { let c = e0
@@ -1124,7 +1176,7 @@ impl<'a> PG<'a> {
             self.feat.nested_tuple_self += 1;
         }
         let annotate_ret = !matches!(ret, Ty::Num) || self.g.bool(1, 4) || (uses_self && !self.cfg.unannotated_self);
-        (FnDef { name, params: ps, ret, annotate_ret, body }, stateful, sc.depth_stateful, before)
+        (FnDef { name, params: ps, defaults: vec![], ret, annotate_ret, body }, stateful, sc.depth_stateful, before)
     }
 
     /// counter-maker pattern: a function that declares a variable, and returns a closure that
@@ -1151,8 +1203,8 @@ impl<'a> PG<'a> {
         let cname = self.fresh("cl");
         let body = E::Block(vec![S::Let(Pat::Var(x), E::Var(p.clone())), S::Let(Pat::Var(cname.clone()), lam)], Box::new(E::Var(cname)));
         let clo_ty = Ty::Fun(if with_arg { vec![Ty::Num] } else { vec![] }, Box::new(Ty::Num));
-        let def = FnDef { name: name.clone(), params: vec![Param { name: p, ty: Ty::Num, annotate: false }], ret: clo_ty.clone(), annotate_ret: false, body };
-        (def, FnSig { name, params: vec![Ty::Num], ret: clo_ty, stateful: false, depth: 0, maker: true })
+        let def = FnDef { name: name.clone(), params: vec![Param { name: p, ty: Ty::Num, annotate: false }], defaults: vec![], ret: clo_ty.clone(), annotate_ret: false, body };
+        (def, FnSig { name, params: vec![Ty::Num], ret: clo_ty, stateful: false, depth: 0, maker: true, pnames: vec![], defaults: vec![] })
     }
 
     pub fn program(&mut self) -> Prog {
@@ -1174,8 +1226,21 @@ impl<'a> PG<'a> {
                         Ty::Num
                     };
                     let allow_state = self.cfg.state && self.g.bool(3, 4);
-                    let (def, stateful, depth, _) = self.gen_fn(name.clone(), params.clone(), ret.clone(), allow_state);
-                    self.fns.push(FnSig { name, params: params.into_iter().map(|(_, t)| t).collect(), ret, stateful, depth, maker: false });
+                    let (mut def, stateful, depth, _) = self.gen_fn(name.clone(), params.clone(), ret.clone(), allow_state);
+                    // trailing parameters of an all-number function may get defaults
+                    let mut defaults = vec![false; params.len()];
+                    if self.cfg.default_args && params.len() >= 2 && params.iter().all(|(_, t)| *t == Ty::Num) && self.g.bool(1, 3) {
+                        def.defaults = vec![None; params.len()];
+                        for i in 1..params.len() {
+                            if self.g.coin() {
+                                let E::Lit(l) = self.lit() else { unreachable!() };
+                                def.defaults[i] = Some(l);
+                                defaults[i] = true;
+                            }
+                        }
+                    }
+                    let pnames = params.iter().map(|(n, _)| n.clone()).collect();
+                    self.fns.push(FnSig { name, params: params.into_iter().map(|(_, t)| t).collect(), ret, stateful, depth, maker: false, pnames, defaults });
                     self.feat.fns += 1;
                     tops.push(Top::Fn(def));
                 }
@@ -1216,7 +1281,7 @@ impl<'a> PG<'a> {
                     let xparam = self.fresh("p");
                     let fty = Ty::Fun(vec![Ty::Num], Box::new(Ty::Num));
                     let (def, stateful, depth, _) = self.gen_fn(name.clone(), vec![(fparam, fty.clone()), (xparam, Ty::Num)], Ty::Num, false);
-                    self.fns.push(FnSig { name, params: vec![fty, Ty::Num], ret: Ty::Num, stateful, depth, maker: false });
+                    self.fns.push(FnSig { name, params: vec![fty, Ty::Num], ret: Ty::Num, stateful, depth, maker: false, pnames: vec![], defaults: vec![] });
                     self.feat.hof_calls += 1;
                     tops.push(Top::Fn(def));
                 }
@@ -1326,6 +1391,9 @@ fn render_fn(f: &FnDef, lay: &Layout, out: &mut String, cn: &mut usize) {
         out.push_str(&p.name);
         if p.annotate || lay.annotate_all {
             let _ = write!(out, ":{}", p.ty.render());
+        }
+        if let Some(Some(d)) = f.defaults.get(i) {
+            let _ = write!(out, " = {d}");
         }
     }
     out.push(')');
@@ -1611,6 +1679,32 @@ fn render_e_inner(e: &E, lay: &Layout, level: usize, out: &mut String, cn: &mut 
             ind(out, lay, level);
             out.push('}');
         }
+        E::Pack(_, fname, fields, dots) => {
+            if fields.iter().all(|(n, _)| n.is_none()) {
+                out.push('(');
+                for (i, (_, e)) in fields.iter().enumerate() {
+                    if i > 0 {
+                        out.push_str(", ");
+                    }
+                    render_e(e, lay, level, out, cn);
+                }
+                out.push(')');
+            } else {
+                out.push('{');
+                for (i, (n, e)) in fields.iter().enumerate() {
+                    if i > 0 {
+                        out.push_str(", ");
+                    }
+                    let _ = write!(out, "{} = ", n.clone().unwrap_or_default());
+                    render_e(e, lay, level, out, cn);
+                }
+                if *dots {
+                    out.push_str(if fields.is_empty() { ".." } else { ", .." });
+                }
+                out.push('}');
+            }
+            let _ = write!(out, " |> {fname}");
+        }
         E::ArrLit(es) => {
             out.push('[');
             for (i, e) in es.iter().enumerate() {
@@ -1698,6 +1792,7 @@ pub fn visit_mut(e: &mut E, f: &mut dyn FnMut(&mut E)) {
             arms.iter_mut().for_each(|(_, x)| visit_mut(x, f));
             visit_mut(d, f);
         }
+        E::Pack(_, _, fields, _) => fields.iter_mut().for_each(|(_, x)| visit_mut(x, f)),
         E::ArrLit(es) => es.iter_mut().for_each(|x| visit_mut(x, f)),
         E::Index(a, i) => {
             visit_mut(a, f);
@@ -1856,6 +1951,15 @@ fn rename_e(e: &mut E, f: &dyn Fn(&str) -> String) {
             rename_e(sc, f);
             arms.iter_mut().for_each(|(_, x)| rename_e(x, f));
             rename_e(d, f);
+        }
+        E::Pack(_, fname, fields, _) => {
+            *fname = f(fname);
+            fields.iter_mut().for_each(|(n, x)| {
+                if let Some(n) = n {
+                    *n = f(n);
+                }
+                rename_e(x, f)
+            });
         }
         E::ArrLit(es) => es.iter_mut().for_each(|x| rename_e(x, f)),
         E::Index(a, i) => {
